@@ -645,7 +645,16 @@ func FuncName(pkg *types.Package, name string, recv *types.Var, org bool) string
 			if org {
 				tName = named.Obj().Name()
 			} else {
-				tName = abi.NamedName(named)
+				// A function-local type is identified by its scope as well (as in
+				// its descriptor name): wrappers of same-named local types must
+				// not share a symbol with each other or with a package-level type.
+				tName = abi.NamedName(named) + abi.ScopeIndices(named.Obj())
+				if tpkg := named.Obj().Pkg(); tpkg != nil && pkg != nil && PathOf(tpkg) != PathOf(pkg) {
+					// A wrapper (method value, method expression) that pkg makes for
+					// a type of another package: same-named types of different
+					// packages must not share a symbol.
+					tName = PathOf(tpkg) + "." + tName
+				}
 			}
 			if ptr {
 				tName = "(*" + tName + ")"
